@@ -473,12 +473,14 @@ func corruptLine(line, kind string) (string, bool) {
 	case strings.HasPrefix(kind, "int-"):
 		p := strings.SplitN(kind, "-", 3)
 		fmt.Sscan(p[1], &k)
-		v = map[string]string{"empty": "", "x": "x", "1x": "1x", "float": "1.5", "huge": "99999999999999999999", "space": " 1", "hex": "0x10"}[p[2]]
+		v = intSpellings[p[2]]
 		f[k] = v
 		return strings.Join(f, "\t"), true
 	case strings.HasPrefix(kind, "tag-"):
 		v = map[string]string{"nocolon": "XX", "onecolon": "XX:i", "unknowntype": "XX:Q:1", "A-empty": "XX:A:", "A-two": "XX:A:ab", "i-nonint": "XX:i:x", "i-float": "XX:i:1.5",
-			"f-nonnum": "XX:f:x", "H-odd": "XX:H:abc", "H-nonhex": "XX:H:zz", "emptytag": ""}[strings.TrimPrefix(kind, "tag-")]
+			"f-nonnum": "XX:f:x", "H-odd": "XX:H:abc", "H-nonhex": "XX:H:zz", "emptytag": "",
+			"i-sign": "XX:i:-", "i-plus": "XX:i:+", "i-empty": "XX:i:", "i-over": "XX:i:9223372036854775808", "i-underscore": "XX:i:1_0", "i-hex": "XX:i:0x10",
+			"f-sign": "XX:f:-", "f-dot": "XX:f:.", "f-empty": "XX:f:", "f-comma": "XX:f:1,5", "f-two": "XX:f:1.5.2", "H-0x": "XX:H:0xff", "H-space": "XX:H:0 ", "type-lower": "XX:z:a", "type-empty": "XX::a", "type-two": "XX:ii:1"}[strings.TrimPrefix(kind, "tag-")]
 		// once appended after the existing tags, once in front of them
 		return strings.Join(append(f, v), "\t"), true
 	case strings.HasPrefix(kind, "tagfirst-"):
@@ -489,17 +491,26 @@ func corruptLine(line, kind string) (string, bool) {
 	panic("unknown corruption " + kind)
 }
 
+// intSpellings: texts that are NOT a decimal integer in the int range, whatever a lenient or hand-rolled
+// parser might make of them.
+var intSpellings = map[string]string{"empty": "", "x": "x", "1x": "1x", "float": "1.5", "huge": "99999999999999999999", "space": " 1", "hex": "0x10",
+	"minus": "-", "plus": "+", "doubleminus": "--1", "plusminus": "+-1", "trailminus": "1-", "exp": "1e3", "bin": "0b1", "oct": "0o7", "underscore": "1_0",
+	"arabic": "\u0661", "fullwidth": "\uff11", "over": "9223372036854775808", "under": "-9223372036854775809", "nan": "NaN", "inf": "Inf", "nul": "1\x00", "trailspace": "1 ", "dot": ".", "comma": "1,0"}
+
+var intSpellingNames = []string{"empty", "x", "1x", "float", "huge", "space", "hex", "minus", "plus", "doubleminus", "plusminus", "trailminus", "exp", "bin", "oct", "underscore", "arabic", "fullwidth", "over", "under", "nan", "inf", "nul", "trailspace", "dot", "comma"}
+
 func corruptionMenu() []string {
 	var m []string
 	for k := 1; k <= 10; k++ {
 		m = append(m, fmt.Sprint("keep-fields-", k))
 	}
 	for _, fi := range []int{1, 3, 4, 7, 8} {
-		for _, v := range []string{"empty", "x", "1x", "float", "huge", "space", "hex"} {
+		for _, v := range intSpellingNames {
 			m = append(m, fmt.Sprintf("int-%d-%s", fi, v))
 		}
 	}
-	for _, t := range []string{"nocolon", "onecolon", "unknowntype", "A-empty", "A-two", "i-nonint", "i-float", "f-nonnum", "H-odd", "H-nonhex", "emptytag"} {
+	for _, t := range []string{"nocolon", "onecolon", "unknowntype", "A-empty", "A-two", "i-nonint", "i-float", "f-nonnum", "H-odd", "H-nonhex", "emptytag",
+		"i-sign", "i-plus", "i-empty", "i-over", "i-underscore", "i-hex", "f-sign", "f-dot", "f-empty", "f-comma", "f-two", "H-0x", "H-space", "type-lower", "type-empty", "type-two"} {
 		m = append(m, "tag-"+t)
 	}
 	for _, t := range []string{"nocolon", "i-nonint", "H-odd"} {
@@ -876,7 +887,7 @@ func runC11(r *core.Run) {
 	pool := samValidPool()
 	menu := corruptionMenu()
 	maxLines := core.Pick(r, 3, 4)
-	r.Bound("sam-line-corruptions", fmt.Sprintf("every file of 1..%d lines from a pool of %d valid lines (3 alignments, 2 headers) x every alignment-line position x %d corruptions (keep only the first k fields k=1..10; each of the 5 integer fields <- '', x, 1x, 1.5, 20 digits, ' 1', 0x10; a tag with no colon / one colon / unknown type / A with 0 or 2 bytes / i non-integer / f non-number / H odd or non-hex / empty tag field, appended or placed before the existing tags)", maxLines, len(pool), len(menu)))
+	r.Bound("sam-line-corruptions", fmt.Sprintf("every file of 1..%d lines from a pool of %d valid lines (3 alignments, 2 headers) x every alignment-line position x %d corruptions (keep only the first k fields k=1..10; each of the 5 integer fields <- 26 texts that are not a decimal integer in range ('', x, 1x, 1.5, 20 digits, ' 1', 0x10, a bare '-' or '+', --1, +-1, 1-, 1e3, 0b1, 0o7, 1_0, an Arabic-Indic and a full-width digit, MaxInt64+1, MinInt64-1, NaN, Inf, 1 NUL, '1 ', '.', '1,0'); a tag with no colon / one colon / unknown type / A with 0 or 2 bytes / i non-integer / f non-number / H odd or non-hex / empty tag field, appended or placed before the existing tags)", maxLines, len(pool), len(menu)))
 	core.Clause(r, "sam-line-corruptions", core.Opts{Rule: "every single-line corruption of every small valid file: ReaderHeader yields exactly one error in that line's position and the uncorrupted decode at every other position; Reader yields the records before, one error, the records after; non-trivial = all"},
 		func(emit func(c11Corrupt) bool) {
 			enum.Sequences(len(pool), maxLines, func(sq []int) bool {
